@@ -180,6 +180,20 @@ func c09PairCase(s *core.Sub, cv *core.Conv, a, ra, b, rb []byte, scratch *[]byt
 		string(ra)+string(c09Mid)+string(rb), string(got))
 }
 
+// c09NoReferenceSyntax: the document has no link reference syntax: no definition ("]:") and every closing bracket is
+// directly followed by '(' (inline links and images only).
+func c09NoReferenceSyntax(md string) bool {
+	if strings.Contains(md, "]:") {
+		return false
+	}
+	for i := 0; i < len(md); i++ {
+		if md[i] == ']' && (i+1 >= len(md) || md[i+1] != '(') {
+			return false
+		}
+	}
+	return true
+}
+
 func runC09(r *core.Run) {
 	type job struct {
 		name   string
@@ -308,7 +322,16 @@ func runC09(r *core.Run) {
 			"- a\n\n\n", "+\n\n", "- - a", "- # a", "    a\n\n    b", "a\\", "a  ", "\\", "`", "``a", "*a", "_a", "<div>", "<!--", "<?a", "<!A", "<![CDATA[", "</x", "a\n>", "a\n-", "a\n=", "~~~", "```", "- ```", "> ```", "-\n\n-\n\n  a", "1.\n2.\n   a", "-\n  -\n    a", ">\n\n> a", "- a\n\n-", "*\n*\n*",
 			// tabs: a line's columns are counted from its own start, whatever came before it
 			"\ta", "  \ta", " \t a", "\t\ta", "-\ta", ">\ta", "- a\n\n\tb", "1.\ta\n\n\t\tb", "a\tb", "```\ncode\n```", "~~~\na\n~~~", "> ```\n> c\n> ```", "a\n\tb", "#\ta"}
-		for _, cn := range []string{"core+unsafe", "gfm"} {
+		// East Asian text with line breaks (the CJK line-break options look at the characters around a break) and inline
+		// links / images whose text ends in a line break
+		edge = append(edge, "東京の\n会社", "漢字。\n[会社\n](/u)", "東京の\n[会社\n](/u)", "a\n[b\n](/u)", "![東京\n](/u)", "*東京\n*", "> 東京\n> [京\n> ](/u)", "- 京\n  [都\n  ](/u)", "東京\n", "京", "。a", "a。\n*b\n*")
+		var cjkDocs []string
+		for i, u := range UnicodeDocs() {
+			if i%4 == 0 || !r.Quick() { // quick: every fourth of the Unicode documents
+				cjkDocs = append(cjkDocs, string(u))
+			}
+		}
+		for _, cn := range []string{"core+unsafe", "gfm", "x:cjk-simple", "x:cjk-css3+hardwraps"} {
 			cfg := core.MustCfg(cn)
 			type item struct {
 				src, out []byte
@@ -318,7 +341,7 @@ func runC09(r *core.Run) {
 			{
 				cv := core.NewConv(cfg)
 				add := func(md string) {
-					if strings.ContainsAny(md, "[\r") || strings.TrimSpace(md) == "" || len(md) > core.Pick(r, 200, 4000) {
+					if !c09NoReferenceSyntax(md) || strings.ContainsAny(md, "\r") || strings.TrimSpace(md) == "" || len(md) > core.Pick(r, 200, 4000) {
 						return
 					}
 					src := []byte(strings.TrimRight(md, "\n"))
@@ -330,11 +353,18 @@ func runC09(r *core.Run) {
 					}
 					items = append(items, item{src, append([]byte{}, out...), c09Open(src, doc)})
 				}
-				for _, e := range Seeds(r) {
-					add(e.Markdown)
-					if strings.Contains(e.Markdown, "<") { // tag names and HTML block conditions are case-insensitive
-						if up := strings.ToUpper(e.Markdown); up != e.Markdown {
-							add(up)
+				if strings.HasPrefix(cn, "x:cjk") {
+					// the East Asian line-break configurations: the edge constructs and the Unicode documents
+					for _, e := range cjkDocs {
+						add(e)
+					}
+				} else {
+					for _, e := range Seeds(r) {
+						add(e.Markdown)
+						if strings.Contains(e.Markdown, "<") { // tag names and HTML block conditions are case-insensitive
+							if up := strings.ToUpper(e.Markdown); up != e.Markdown {
+								add(up)
+							}
 						}
 					}
 				}
@@ -342,7 +372,7 @@ func runC09(r *core.Run) {
 					add(e)
 				}
 			}
-			sub := r.Sub("seed-pairs/"+cn, fmt.Sprintf("every ordered pair (A, B) of %d seeds (spec examples, sources of the repository's test-case files, %d edge constructs such as empty and marker-only list items, and the upper-cased form of every seed containing '<'; seeds containing '[' or a carriage return are left out, A skipped when it ends in an open code/HTML block): R(A ⏎⏎ '# h' ⏎⏎ B) == R(A) + heading + R(B) under %s", len(items), len(edge), cn))
+			sub := r.Sub("seed-pairs/"+cn, fmt.Sprintf("every ordered pair (A, B) of %d seeds (spec examples, sources of the repository's test-case files, %d edge constructs such as empty and marker-only list items, and the upper-cased form of every seed containing '<'; seeds with a carriage return or with a bracket that is not part of an inline link / image (every ']' directly followed by '(', no ']:') are left out, A skipped when it ends in an open code/HTML block): R(A ⏎⏎ '# h' ⏎⏎ B) == R(A) + heading + R(B) under %s", len(items), len(edge), cn))
 			sub.Bound = fmt.Sprintf("%d × %d pairs", len(items), len(items))
 			complete := core.ForEachIndex(len(items), core.Workers(), func(w int) func(int) {
 				cv := core.NewConv(cfg)
